@@ -19,5 +19,7 @@ hprop.install(globals(), hprop.HistoryProperty(
         "only code paths the histories execute are observed",
     ],
     quick=(16, 50, 40), thorough=(16, 1200, 70), probes=True, retains=True,
+    # plugs are throttled co-simulation style as well: two effective powers for one vehicle type exercise shared model tables
+    instr_bias={"throttle": True},
 ))
 FLOORS = {"quick": {"retained_state_checks": 4000, "branches": 190}, "thorough": {"branches": 5000}}
